@@ -642,6 +642,18 @@ theorem bisect_spec (go : K → Bool) (ts : List K)
         · have := h3 i v (by omega) hv
           rw [this] at hgi; cases hgi
 
+theorem zip_drop_take {α β : Type} (l : List α) (l' : List β) (i n : Nat) :
+    ((l.zip l').drop i).take n = ((l.drop i).take n).zip ((l'.drop i).take n) := by
+  simp [List.zip_eq_zipWith, List.take_zipWith, List.drop_zipWith]
+
+/-- `construct` succeeds on lists of equal length and stores them as they are -/
+theorem construct_ok (times : List K) (frames : List F) (tm : Option FieldInfo) (m : Mode)
+    (h : times.length = frames.length) :
+    construct times frames tm m = .ok
+      { times := times, frames := frames, mode := m, dataShape := tm.map (·.shape),
+        dtypeSet := false, grid := tm.map (·.grid), template := tm } := by
+  unfold construct; simp [h]
+
 variable [LinearOrder K]
 
 theorem sorted_getElem?_le (ts : List K) (hs : ts.Pairwise (· ≤ ·)) (i j : Nat) (v w : K)
@@ -723,18 +735,6 @@ theorem filter_eq_drop_take {α : Type} (q : α → Bool) :
       simp only [List.drop_succ_cons]
       congr 1; omega
 
-theorem zip_drop_take {α β : Type} (l : List α) (l' : List β) (i n : Nat) :
-    ((l.zip l').drop i).take n = ((l.drop i).take n).zip ((l'.drop i).take n) := by
-  simp [List.zip_eq_zipWith, List.take_zipWith, List.drop_zipWith]
-
-/-- `construct` succeeds on lists of equal length and stores them as they are -/
-theorem construct_ok (times : List K) (frames : List F) (tm : Option FieldInfo) (m : Mode)
-    (h : times.length = frames.length) :
-    construct times frames tm m = .ok
-      { times := times, frames := frames, mode := m, dataShape := tm.map (·.shape),
-        dtypeSet := false, grid := tm.map (·.grid), template := tm } := by
-  unfold construct; simp [h]
-
 /-- `extract_time_range` with both ends given never fails and returns a storage in the default
 write mode that holds a contiguous run of the stored pairs - the *same* frame objects - and the
 same template.  Holds for arbitrary (also unsorted) times. -/
@@ -800,6 +800,446 @@ theorem extract_time_range_consistent (s : Store K F) (hlen : s.times.length = s
     exact absurd (hl.mpr (not_le.mp hlt)) (by omega)
 
 end bisect
+
+/-! ### collections: `extract_field` and `view_field` -/
+
+section collections
+variable {K F V : Type}
+
+/-- the label lookup returns the first member carrying the label -/
+theorem labelIndex_eq_some (ms : List Member) (l : String) (i : Nat) :
+    labelIndex ms l = some i ↔
+      ∃ h : i < ms.length, ms[i].label = some l ∧ ∀ j (hj : j < i), (ms[j]'(by omega)).label ≠ some l := by
+  unfold labelIndex
+  rw [List.findIdx?_eq_some_iff_getElem]
+  constructor
+  · rintro ⟨h, h1, h2⟩
+    exact ⟨h, by simpa using h1, fun j hj => by simpa using h2 j hj⟩
+  · rintro ⟨h, h1, h2⟩
+    exact ⟨h, by simpa using h1, fun j hj => by simpa using h2 j hj⟩
+
+theorem labelIndex_eq_none (ms : List Member) (l : String) :
+    labelIndex ms l = none ↔ ∀ m ∈ ms, m.label ≠ some l := by
+  unfold labelIndex
+  rw [List.findIdx?_eq_none_iff]
+  simp
+
+theorem pyIndex_nat (n i : Nat) (h : i < n) : pyIndex n (i : Int) = .ok i := normIndex_nat n i h
+
+theorem pyIndex_neg (n k : Nat) (h1 : 1 ≤ k) (h2 : k ≤ n) : pyIndex n (-(k : Int)) = .ok (n - k) :=
+  normIndex_neg n k h1 h2
+
+theorem pyIndex_out (n : Nat) (i : Int) (h : i < -(n : Int) ∨ (n : Int) ≤ i) :
+    pyIndex n i = .error .index := normIndex_out n i h
+
+theorem pyIndex_lt (n : Nat) (i : Int) (j : Nat) (h : pyIndex n i = .ok j) : j < n := by
+  unfold pyIndex at h
+  simp only at h
+  split_ifs at h with h1 h2 h2
+  · cases h; omega
+  · cases h; omega
+
+/-- slicing on raw data: rows `offset i .. offset i + ncomp i` of a frame with `ncell` cells -/
+theorem sliceFrame_blocks (ncell : Nat) :
+    ∀ (ms : List Member) (blocks : List (List V)) (i : Nat) (fi : FieldInfo),
+      fi.members = ms → fi.ncell = ncell → blocks.length = ms.length →
+      (∀ j (h1 : j < ms.length) (h2 : j < blocks.length), blocks[j].length = ms[j].ncomp * ncell) →
+      ∀ (hi : i < blocks.length), sliceFrame fi i blocks.flatten = blocks[i] := by
+  intro ms
+  induction ms with
+  | nil => intro blocks i fi _ _ hl _ hi; simp at hl; rw [hl] at hi; simp at hi
+  | cons m ms ih =>
+    intro blocks i fi hm hn hl hb hi
+    cases blocks with
+    | nil => simp at hi
+    | cons b bs =>
+      have hb0 := hb 0 (by simp) (by simp)
+      simp only [List.getElem_cons_zero] at hb0
+      cases i with
+      | zero =>
+        unfold sliceFrame
+        simp only [hm, hn, memberOffset, List.take_zero, List.map_nil, List.sum_nil, Nat.zero_mul,
+          List.drop_zero, List.getElem?_cons_zero, List.flatten_cons, List.getElem_cons_zero]
+        exact List.take_left' hb0
+      | succ i =>
+        have hrec := ih bs i { fi with members := ms } rfl hn (by simpa using hl)
+          (by intro j h1 h2
+              have := hb (j + 1) (by simp; omega) (by simp; omega)
+              simpa using this)
+          (by simpa using hi)
+        simp only [List.getElem_cons_succ]
+        rw [← hrec]
+        unfold sliceFrame
+        simp only [hm, hn, memberOffset, List.take_succ_cons, List.map_cons, List.sum_cons,
+          List.getElem?_cons_succ, List.flatten_cons]
+        rw [Nat.add_mul, ← hb0, List.drop_length_add_append]
+
+/-- the members' slices partition the frame: concatenated in order they give it back -/
+theorem sliceFrame_exhaustive (fi : FieldInfo) (blocks : List (List V))
+    (hl : blocks.length = fi.members.length)
+    (hb : ∀ j (h1 : j < fi.members.length) (h2 : j < blocks.length),
+      blocks[j].length = fi.members[j].ncomp * fi.ncell) :
+    ((List.range fi.members.length).map (fun i => sliceFrame fi i blocks.flatten)).flatten =
+      blocks.flatten := by
+  congr 1
+  apply List.ext_getElem
+  · simp [hl]
+  · intro i h1 h2
+    simp only [List.getElem_map, List.getElem_range]
+    exact sliceFrame_blocks fi.ncell fi.members blocks i fi rfl rfl hl hb h2
+
+/-- which member `extract_field` selects and which errors it raises:
+an int is a Python index into the members, a label selects the first member carrying it -/
+theorem extractFieldPlan_cases (s : Store K F) (fi : FieldInfo) (ht : s.template = some fi)
+    (fid : FieldId) (label : Option String) :
+    (fi.cls ≠ 3 → extractFieldPlan s fid label = .error .type) ∧
+    (fi.cls = 3 → ∀ (i : Nat) (h : i < fi.members.length),
+      (fid = .idx (i : Int) ∨ (∃ k : Nat, 1 ≤ k ∧ k ≤ fi.members.length ∧ fid = .idx (-(k : Int)) ∧
+          i = fi.members.length - k) ∨ (∃ l, fid = .name l ∧ labelIndex fi.members l = some i)) →
+      extractFieldPlan s fid label = .ok (fi, i, memberInfo fi fi.members[i] label)) ∧
+    (fi.cls = 3 → ∀ i : Int, (i < -(fi.members.length : Int) ∨ (fi.members.length : Int) ≤ i) →
+      extractFieldPlan s (.idx i) label = .error .index) ∧
+    (fi.cls = 3 → ∀ l, labelIndex fi.members l = none →
+      extractFieldPlan s (.name l) label = .error .value) := by
+  refine ⟨?_, ?_, ?_, ?_⟩
+  · intro hc; unfold extractFieldPlan; simp [ht, hc]
+  · intro hc i h hfid
+    unfold extractFieldPlan
+    simp only [ht, hc, ne_eq, not_true_eq_false, if_false]
+    rcases hfid with rfl | ⟨k, h1, h2, rfl, rfl⟩ | ⟨l, rfl, hl⟩
+    · simp only [pyIndex_nat _ _ h, List.getElem?_eq_getElem h]
+    · have h3 : fi.members.length - k < fi.members.length := by omega
+      simp only [pyIndex_neg _ _ h1 h2, List.getElem?_eq_getElem h3]
+    · simp only [hl, List.getElem?_eq_getElem h]
+  · intro hc i hi
+    unfold extractFieldPlan
+    simp [ht, hc, pyIndex_out _ _ hi]
+  · intro hc l hl
+    unfold extractFieldPlan
+    simp [ht, hc, hl]
+
+/-- **extract_field is consistent with the stored frames**: the result has the same times, its
+`k`-th frame is member `i`'s part of the `k`-th stored frame, the template is the member (with
+the label override), the mode is the default one and nothing else is carried over. -/
+theorem extract_field_consistent (s : Store K (List V)) (hlen : s.times.length = s.frames.length)
+    (fid : FieldId) (label : Option String) (fi tmpl : FieldInfo) (i : Nat)
+    (hp : extractFieldPlan s fid label = .ok (fi, i, tmpl)) :
+    ∃ s', extractFieldBuild s tmpl (s.frames.map (sliceFrame fi i)) = .ok s' ∧
+      s'.contents = s.contents.map (fun p => (p.1, sliceFrame fi i p.2)) ∧
+      s'.template = some tmpl ∧ s'.mode = .truncateOnce ∧ s'.dataShape = some tmpl.shape ∧
+      s'.grid = some tmpl.grid ∧ s.template = some fi ∧ fi.cls = 3 ∧
+      ∃ h : i < fi.members.length, tmpl = memberInfo fi fi.members[i] label := by
+  unfold extractFieldBuild
+  rw [construct_ok _ _ _ _ (by simp [hlen])]
+  refine ⟨_, rfl, ?_, rfl, rfl, rfl, rfl, ?_⟩
+  · simp only [Store.contents]
+    rw [List.zip_map_right]
+    simp
+  · unfold extractFieldPlan at hp
+    cases ht : s.template with
+    | none => rw [ht] at hp; simp only at hp; split at hp <;> (try split_ifs at hp) <;> cases hp
+    | some fi0 =>
+      rw [ht] at hp
+      simp only at hp
+      by_cases hc : fi0.cls = 3
+      · simp only [hc, ne_eq, not_true_eq_false, if_false] at hp
+        split at hp
+        · cases hp
+        · rename_i j hj
+          split at hp
+          · cases hp
+          · rename_i m hm
+            cases hp
+            obtain ⟨hlt, rfl⟩ := List.getElem?_eq_some_iff.mp hm
+            exact ⟨rfl, hc, hlt, rfl⟩
+      · simp [hc] at hp
+
+/-- **view_field is consistent with the stored frames and with extract_field**: item `k` of a
+view is member `j` of `storage[k]`, where `j` is the member `extract_field` selects for the same
+field id; its data is that member's part of the `k`-th stored frame (`sliceFrame fi j f`). -/
+theorem view_field_consistent (s : Store K F) (fid : FieldId) (fidx k : Int) (fi : FieldInfo)
+    (f : F) (j : Nat) (m : Member) (hc : viewCreate s fid = .ok fidx)
+    (hg : viewGet s fidx k = .ok (fi, f, j, m)) :
+    getField s k = .ok (fi, f) ∧ extractFieldPlan s fid none = .ok (fi, j, memberInfo fi m none) := by
+  unfold viewGet at hg
+  cases hgf : getField s k with
+  | error e => rw [hgf] at hg; cases hg
+  | ok r =>
+    obtain ⟨fi0, f0⟩ := r
+    rw [hgf] at hg
+    simp only at hg
+    have htm : s.template = some fi0 := by
+      unfold getField at hgf
+      split at hgf
+      · cases hgf
+      · split at hgf
+        · cases hgf
+        · rename_i fi1 h1
+          split at hgf
+          · cases hgf
+          · cases hgf; exact h1
+    by_cases hcl : fi0.cls = 3
+    · simp only [hcl, ne_eq, not_true_eq_false, if_false] at hg
+      split at hg
+      · cases hg
+      · rename_i j0 hj0
+        split at hg
+        · cases hg
+        · rename_i m0 hm0
+          cases hg
+          refine ⟨rfl, ?_⟩
+          unfold viewCreate at hc
+          simp only [htm, hcl, beq_self_eq_true] at hc
+          unfold extractFieldPlan
+          simp only [htm, hcl, ne_eq, not_true_eq_false, if_false]
+          cases fid with
+          | idx i =>
+            simp only at hc
+            cases hc
+            simp only [hj0, hm0]
+          | name l =>
+            simp only at hc
+            cases hl : labelIndex fi.members l with
+            | none => rw [hl] at hc; cases hc
+            | some i0 =>
+              rw [hl] at hc
+              cases hc
+              have : pyIndex fi.members.length (i0 : Int) = .ok i0 := by
+                apply pyIndex_nat
+                exact ((labelIndex_eq_some _ _ _).mp hl).1
+              rw [this] at hj0
+              cases hj0
+              simp only [hl, hm0]
+    · simp [hcl] at hg
+
+end collections
+
+/-! ### `copy` and `apply` -/
+
+section apply
+variable {K F : Type} [Add K] [NatCast K]
+
+/-- the (time, frame) pairs the loop of `apply` appends for the work list `todo` -/
+def pairsOf (times : List K) (todo : List (Nat × F)) : List (K × F) :=
+  todo.filterMap (fun p => (times[p.1]?).map (fun t => (t, p.2)))
+
+theorem pairsOf_range' : ∀ (times pre : List K) (nf : List F),
+    pairsOf (pre ++ times) ((List.range' pre.length times.length).zip nf) = times.zip nf := by
+  intro times
+  induction times with
+  | nil => intro pre nf; simp [pairsOf]
+  | cons t ts ih =>
+    intro pre nf
+    cases nf with
+    | nil => simp [pairsOf]
+    | cons f fs =>
+      have h := ih (pre ++ [t]) fs
+      simp only [List.length_append, List.length_cons, List.length_nil, List.append_assoc,
+        List.singleton_append] at h
+      simp only [List.length_cons, List.range'_succ, List.zip_cons_cons, pairsOf,
+        List.filterMap_cons]
+      have : (pre ++ t :: ts)[pre.length]? = some t := by simp
+      simp only [this, Option.map_some]
+      unfold pairsOf at h
+      rw [Nat.zero_add] at h
+      rw [h]
+
+theorem pairsOf_range (times : List K) (nf : List F) :
+    pairsOf times ((List.range times.length).zip nf) = times.zip nf := by
+  have := pairsOf_range' times [] nf
+  simpa [List.range_eq_range'] using this
+
+/-- an accepted `start_writing` leaves the storage ready for appends of fields like `fi` -/
+theorem startWriting_accepted_ready (o : Store K F) (fi : FieldInfo)
+    (h : (startWriting o fi).2 = none) :
+    (startWriting o fi).1.grid = some fi.grid ∧ (startWriting o fi).1.dataShape = some fi.shape ∧
+      (startWriting o fi).1.template = some fi := by
+  revert h
+  unfold startWriting baseStart
+  cases hm : o.mode <;> cases hd : o.dataShape <;> simp [clear] <;> split_ifs <;> simp_all
+
+/-- the loop of `apply` once the output storage has been opened: every remaining item is
+appended with its time; nothing else changes -/
+theorem applyLoop_writing (s : Store K F) (hw : WF s) (fi : FieldInfo) (ht : s.template = some fi)
+    (finfo : FieldInfo → FieldInfo) :
+    ∀ (todo : List (Nat × F)) (o : Store K F), (∀ p ∈ todo, p.1 < s.frames.length) →
+      o.grid = some (finfo fi).grid → o.dataShape = some (finfo fi).shape →
+      o.times.length = o.frames.length →
+      ∃ o', applyLoop s finfo todo (some o) true = (some o', none) ∧
+        o'.contents = o.contents ++ pairsOf s.times todo ∧ o'.mode = o.mode ∧
+        o'.template = o.template ∧ o'.dataShape = o.dataShape ∧
+        o'.times.length = o'.frames.length := by
+  intro todo
+  induction todo with
+  | nil => intro o _ _ _ hl; exact ⟨o, rfl, by simp [pairsOf], rfl, rfl, rfl, hl⟩
+  | cons p todo ih =>
+    intro o hp hg hd hl
+    obtain ⟨i, nf⟩ := p
+    have hi : i < s.frames.length := hp (i, nf) (by simp)
+    obtain ⟨fi', hfi', hgf⟩ := getField_nat s hw i hi
+    rw [ht] at hfi'; cases hfi'
+    obtain ⟨ti, hti⟩ : ∃ t, s.times[i]? = some t :=
+      ⟨s.times[i]'(by rw [hw.1]; exact hi), List.getElem?_eq_getElem (by rw [hw.1]; exact hi)⟩
+    have hacc : (append o (finfo fi) (some ti) nf).2 = none :=
+      (append_accepted_iff o _ _ _).mpr ⟨Or.inr hg, hd⟩
+    rcases append_cases o (finfo fi) (some ti) nf with ⟨_, h1, h2, h3⟩ | ⟨he, _⟩
+    · have hready : (append o (finfo fi) (some ti) nf).1.grid = some (finfo fi).grid ∧
+          (append o (finfo fi) (some ti) nf).1.dataShape = some (finfo fi).shape ∧
+          (append o (finfo fi) (some ti) nf).1.template = o.template := by
+        unfold append appendData
+        simp [hg, hd]
+      obtain ⟨o', e1, e2, e3, e4, e5, e6⟩ := ih (append o (finfo fi) (some ti) nf).1
+        (fun q hq => hp q (by simp [hq])) hready.1 hready.2.1 (by rw [h1, h2]; simp [hl])
+      refine ⟨o', ?_, ?_, by rw [e3, h3], by rw [e4, hready.2.2], by rw [e5, hready.2.1, hd], e6⟩
+      · unfold applyLoop
+        rw [hgf, hti]
+        simp only [if_true]
+        cases hap : append o (finfo fi) (some ti) nf with
+        | mk o3 e3' =>
+          rw [hap] at hacc e1
+          simp only at hacc
+          subst hacc
+          simp only [outOrNew] at e1 ⊢
+          rw [hap]
+          exact e1
+      · rw [e2]
+        simp only [Store.contents, h1, h2, Option.getD_some, pairsOf, List.filterMap_cons, hti,
+          Option.map_some]
+        rw [List.zip_append hl]
+        simp
+    · exact absurd hacc he
+
+/-- **copy / apply are consistent with the stored frames.**  `newFrames[k]` is the data of the
+transformed `k`-th field (for `copy` the `k`-th frame itself), `finfo` the effect of the user
+function on the field description.
+1. an empty storage gives a new empty storage in the default mode;
+2. without `out` the result holds the pairs `(times[k], newFrames[k])` in order, its template is
+   the transformed template and its mode has become `append`;
+3. with `out`, `out.start_writing(transformed)` decides: rejected - that error, `out` keeps
+   its pairs; accepted - `out` (truncated or not according to its mode) followed by all pairs. -/
+theorem copy_apply_consistent (s : Store K F) (hw : WF s) (finfo : FieldInfo → FieldInfo)
+    (newFrames : List F) (hn : newFrames.length = s.frames.length) :
+    (s.frames = [] → ∀ out, applyTo s finfo newFrames out =
+      (some (out.getD (Store.new .truncateOnce)), none)) ∧
+    (∀ fi, s.template = some fi → s.frames ≠ [] →
+      ∃ o, applyTo s finfo newFrames none = (some o, none) ∧
+        o.contents = s.times.zip newFrames ∧ o.mode = .append ∧
+        o.template = some (finfo fi) ∧ o.dataShape = some (finfo fi).shape) ∧
+    (∀ fi o0, s.template = some fi → s.frames ≠ [] → o0.times.length = o0.frames.length →
+      ((startWriting o0 (finfo fi)).2 = none →
+        ∃ o, applyTo s finfo newFrames (some o0) = (some o, none) ∧
+          o.contents = (startWriting o0 (finfo fi)).1.contents ++ s.times.zip newFrames ∧
+          o.mode = (startWriting o0 (finfo fi)).1.mode) ∧
+      (∀ e, (startWriting o0 (finfo fi)).2 = some e →
+        applyTo s finfo newFrames (some o0) = (some (startWriting o0 (finfo fi)).1, some e) ∧
+        (startWriting o0 (finfo fi)).1.contents = o0.contents)) := by
+  have hmem : ∀ p ∈ (List.range s.times.length).zip newFrames, p.1 < s.frames.length := by
+    intro p hp
+    have := (List.of_mem_zip hp).1
+    rw [List.mem_range, hw.1] at this; exact this
+  -- the first iteration, for any `out` state `o1` about to be opened
+  have first : ∀ fi, s.template = some fi → s.frames ≠ [] → ∀ (out : Option (Store K F)) (o1 : Store K F),
+      o1 = outOrNew out (finfo fi) →
+      o1.times.length = o1.frames.length →
+      ((startWriting o1 (finfo fi)).2 = none →
+        ∃ o, applyTo s finfo newFrames out = (some o, none) ∧
+          o.contents = (startWriting o1 (finfo fi)).1.contents ++ s.times.zip newFrames ∧
+          o.mode = (startWriting o1 (finfo fi)).1.mode ∧
+          o.template = some (finfo fi) ∧ o.dataShape = some (finfo fi).shape) ∧
+      (∀ e, (startWriting o1 (finfo fi)).2 = some e →
+        applyTo s finfo newFrames out = (some (startWriting o1 (finfo fi)).1, some e)) := by
+    intro fi ht hne out o1 ho1 hl1
+    have hpos : 0 < s.frames.length := List.length_pos_iff.mpr hne
+    have hnf : newFrames ≠ [] := by intro h; rw [h] at hn; simp at hn; omega
+    obtain ⟨nf, nfs, rfl⟩ := List.exists_cons_of_ne_nil hnf
+    have hr : List.range s.times.length = 0 :: (List.range' 1 (s.times.length - 1)) := by
+      rw [List.range_eq_range']
+      have : s.times.length = (s.times.length - 1) + 1 := by rw [hw.1]; omega
+      conv_lhs => rw [this, List.range'_succ]
+    obtain ⟨fi', hfi', hgf⟩ := getField_nat s hw 0 hpos
+    rw [ht] at hfi'; cases hfi'
+    obtain ⟨t0, hti⟩ : ∃ t, s.times[0]? = some t :=
+      ⟨s.times[0]'(by rw [hw.1]; exact hpos), List.getElem?_eq_getElem (by rw [hw.1]; exact hpos)⟩
+    constructor
+    · intro hacc
+      obtain ⟨g1, g2, g3⟩ := startWriting_accepted_ready o1 (finfo fi) hacc
+      have hl2 : (startWriting o1 (finfo fi)).1.times.length = (startWriting o1 (finfo fi)).1.frames.length := by
+        rcases startWriting_cases o1 (finfo fi) with ⟨_, _, h1, h2, _⟩ | ⟨he, _⟩
+        · rw [h1, h2]; split_ifs <;> simp [hl1]
+        · exact absurd hacc he
+      obtain ⟨o', e1, e2, e3, e4, e5, _⟩ := applyLoop_writing s hw fi ht finfo
+        ((List.range s.times.length).zip (nf :: nfs)) (startWriting o1 (finfo fi)).1 hmem g1 g2 hl2
+      refine ⟨o', ?_, by rw [e2, pairsOf_range], e3, by rw [e4, g3], by rw [e5, g2]⟩
+      unfold applyTo
+      -- unfold the first iteration on both sides
+      rw [hr] at e1 ⊢
+      simp only [List.zip_cons_cons] at e1 ⊢
+      unfold applyLoop at e1 ⊢
+      simp only [Nat.cast_zero] at e1 ⊢
+      have hgf0 : getField s (0 : Int) = .ok (fi, s.frames[0]) := by simpa using hgf
+      rw [hgf0, hti] at e1 ⊢
+      simp only [if_true, outOrNew] at e1
+      simp only [Bool.false_eq_true, if_false]
+      rw [← ho1]
+      cases hsw : startWriting o1 (finfo fi) with
+      | mk o2 e2' =>
+        rw [hsw] at hacc e1
+        simp only at hacc
+        subst hacc
+        simp only at e1 ⊢
+        -- `e1` is about the loop entered with `writing = true` on `o2`: same continuation
+        cases hap : append o2 (finfo fi) (some t0) nf with
+        | mk o3 e3' =>
+          rw [hap] at e1
+          cases e3' with
+          | some err => simp at e1
+          | none =>
+            simp only at e1 ⊢
+            rw [e1]
+    · intro e he
+      unfold applyTo
+      rw [hr]
+      simp only [List.zip_cons_cons]
+      unfold applyLoop
+      simp only [Nat.cast_zero]
+      have hgf0 : getField s (0 : Int) = .ok (fi, s.frames[0]) := by simpa using hgf
+      rw [hgf0, hti]
+      simp only [Bool.false_eq_true, if_false]
+      rw [← ho1]
+      cases hsw : startWriting o1 (finfo fi) with
+      | mk o2 e2' =>
+        rw [hsw] at he
+        simp only at he
+        subst he
+        rfl
+  refine ⟨?_, ?_, ?_⟩
+  · intro he out
+    have : s.times = [] := by
+      have := hw.1; rw [he] at this; simpa using this
+    unfold applyTo
+    simp only [this, List.length_nil, List.range_zero, List.zip_nil_left, applyLoop]
+    cases out <;> rfl
+  · intro fi ht hne
+    have h := first fi ht hne none _ rfl (by simp [outOrNew])
+    have hmo : (outOrNew (none : Option (Store K F)) (finfo fi)).mode = .truncateOnce := rfl
+    have hacc : (startWriting (outOrNew (none : Option (Store K F)) (finfo fi)) (finfo fi)).2 = none := by
+      rw [start_accepted_iff]; simp [outOrNew]
+    obtain ⟨o, e1, e2, e3, e4, e5⟩ := h.1 hacc
+    refine ⟨o, e1, ?_, ?_, e4, e5⟩
+    · rw [e2, (mode_truncate_once _ _ hmo hacc).1]; simp
+    · rw [e3, (mode_truncate_once _ _ hmo hacc).2]
+  · intro fi o0 ht hne hl0
+    have h := first fi ht hne (some o0) o0 rfl hl0
+    refine ⟨?_, ?_⟩
+    · intro hacc
+      obtain ⟨o, e1, e2, e3, _⟩ := h.1 hacc
+      exact ⟨o, e1, e2, e3⟩
+    · intro e he
+      refine ⟨h.2 e he, ?_⟩
+      have : (sstep o0 (.start (finfo fi))).2 ≠ none := by simp [sstep, he]
+      exact (rejected_keeps_contents o0 (.start (finfo fi)) this).1
+
+end apply
 
 end store
 end PdeVerif.Storage
